@@ -12,6 +12,7 @@ from hypothesis import strategies as st
 from vf import harness
 from vf.ceosgen import product
 from vf.props import c07, common
+from vf.runner import SetupViolation
 
 ID = "C10"
 LEVEL = "exploration"
@@ -71,9 +72,17 @@ def reference(level, rpc_tag):
         docs = {}
         for image in images:
             p = c07.user_index_path(prod.url, image)
+            if not p.is_file():
+                found = sorted(q.name for q in p.parent.glob("*")) if p.parent.exists() else []
+                for q in (p.parent.glob("*") if p.parent.exists() else []):
+                    q.unlink()
+                raise SetupViolation(harness.disc(
+                    "cache-not-at-documented-location", "create_cache=True",
+                    f"<user_cache_dir>/xarray-ceos-alos2/<sha256(root)>/{image}.index", found))
             doc = json.loads(p.read_text())
             docs[image] = strip_root(doc)
-            p.unlink()
+        for image in images:
+            c07.user_index_path(prod.url, image).unlink(missing_ok=True)
         p.parent.rmdir()
     return flat, docs
 
@@ -140,10 +149,11 @@ class World:
         # the whole user cache dir
         cache = sha_tree(harness.cache_home())
         rel = self.hash_dir.relative_to(harness.cache_home())
+        docs_ref = reference(self.level, "default")[1]
         want_files = {str(rel / f"{image}.index") for image in self.local}
         if set(cache) != want_files:
             out.append(harness.disc("user-cache-dir", what, sorted(want_files), sorted(cache)))
-        _, docs = reference(self.level, "default")
+        docs = docs_ref
         for image in self.local:
             p = self.hash_dir / f"{image}.index"
             if p.is_file():
@@ -173,6 +183,12 @@ class World:
 
     # ---- operations ------------------------------------------------------------------------
     def apply(self, op):
+        try:
+            return self._apply(op)
+        except SetupViolation as e:
+            return [e.disc]
+
+    def _apply(self, op):
         import ceos_alos2
 
         kind = op["op"]
